@@ -25,11 +25,13 @@ CLAUSES = {
     "C04.rrblup.normaleq": 100,
 }
 HOOKS_REQUIRED = ["rrBLUP_ML0"]
-RULE = ("model cases: seeded class-based genotype arrays (1-120 taxa incl. 49/98/103, 1-60 markers, ploidy 1/2/4; classes random, "
+RULE = ("model cases: seeded class-based genotype arrays (1-120 taxa incl. 49/98/103, plus a rare large-population class of 4097/5000/8192/9192 taxa x 1-6 markers; 1-60 markers, ploidy 1/2/4; classes random, "
         "some/all loci fixed, all-one, all-zero, rare allele, clones, all-heterozygous) x effect classes (gaussian, small integers "
         "with exact zeros and -0.0, all positive/negative/zero, single non-zero, non-zero only on fixed loci, 1e4 / 1e-4 magnitudes, "
         "per-trait mixtures; 1-4 traits; 1-3 fixed effects; additive and additive+dominance models, optional u_misc) presented as "
         "phased matrix, unphased projection and raw dosage array (int8/int64/float64), with and without taxa/taxa_grp/trait labels; "
+        "responses for R^2 as array, from_numpy object, or constructor-built object whose location/scale are not the mean/sd "
+        "of its rows (raw values with location 0 / scale 1, arbitrary location+scale); "
         "one taxon permutation and one random marker partition (1-4 parts) per case.  fit cases: 8-120 records x 2-60 markers "
         "(n > p, n barely > p, n <= p; monomorphic and duplicated columns, rare alleles, {-1,0,1} coding) x responses (signal+noise, "
         "pure noise, near-noiseless, constant trait, 1e6 offset, 1e-3 and 1e4 scale), 1-3 traits, numpy and object entry points.  "
@@ -125,9 +127,14 @@ def gen_effects(g, ucls, p, t, fixed):
     return one(ucls, t)
 
 
-def gen_geno(g):
+BIGN = [4097, 5000, 8192, 9192]   # rare large-population class: more taxa than any plausible internal block size
+
+
+def gen_geno(g, big=None):
     n = int(g.choice(NS)) if g.random() < 0.45 else int(g.integers(1, 41))
     p = int(g.choice(PS)) if g.random() < 0.4 else int(g.integers(1, 25))
+    if big is not None:
+        n = int(big); p = int(g.integers(1, 7))
     ploidy = int(g.choice([2, 2, 2, 2, 2, 2, 1, 4]))
     gcls = str(g.choice(GCLS))
     f = g.uniform(0, 1, p)
@@ -178,6 +185,22 @@ def mk_model(kind, beta, u_misc, u_a, u_d, trait):
              u_d=None if u_d is None else u_d.copy(), trait=None if trait is None else trait.copy())
 
 
+PTFORMS = ["array", "array", "object/from_numpy", "object/raw values, location 0, scale 1", "object/arbitrary location+scale"]
+
+
+def mk_pheno(ptform, Y, taxa, taxa_grp, trait, loc, sc):
+    """Response as a DenseBreedingValueMatrix: standardised on its own taxa (from_numpy) or constructor-built with a
+    location/scale that are not the mean/sd of the rows it holds."""
+    from pybrops.popgen.bvmat.DenseBreedingValueMatrix import DenseBreedingValueMatrix
+    kw = dict(taxa=None if taxa is None else taxa.copy(), taxa_grp=None if taxa_grp is None else taxa_grp.copy(),
+              trait=None if trait is None else trait.copy())
+    if ptform == "object/from_numpy":
+        return DenseBreedingValueMatrix.from_numpy(Y.copy(), **kw)
+    if ptform == "object/raw values, location 0, scale 1":
+        return DenseBreedingValueMatrix(mat=Y.copy(), location=0.0, scale=1.0, **kw)
+    return DenseBreedingValueMatrix(mat=(Y - loc[None, :]) / sc[None, :], location=loc.copy(), scale=sc.copy(), **kw)
+
+
 TABLES = ["facount", "fafreq", "faavail", "fafixed", "fapoly", "dacount", "dafreq", "daavail", "dafixed", "dapoly",
           "nafixed", "napoly"]
 ROWS = ["gebv", "gegv", "predict", "tbv"]
@@ -223,12 +246,13 @@ def collect(model, F, fname, ploidy, dom_ok, X, Y, has_misc):
 def case_model(ctx, c):
     g = ctx.rng("model", c)
     coords = [c, "model"]
-    n, p, ploidy, gcls, mat = gen_geno(g)
+    big = BIGN[(c // BIG_EVERY) % len(BIGN)] if c % BIG_EVERY == BIG_EVERY - 1 else None
+    n, p, ploidy, gcls, mat = gen_geno(g, big)
     dos = O.dosage(mat)
     count = O.allele_count(dos)
     tot = ploidy * n
     fixed = (count == 0) | (count == tot)
-    t = int(g.choice([1, 1, 2, 3, 4]))
+    t = int(g.choice([1, 1, 2, 3, 4])) if big is None else int(g.choice([1, 2]))
     q = int(g.choice([1, 1, 1, 1, 1, 1, 1, 2, 2, 3]))
     kind = "AD" if g.random() < 0.45 else "A"
     ucls = str(g.choice(UCLS))
@@ -288,13 +312,20 @@ def case_model(ctx, c):
          "unrelated": g.normal(size=(n, t)) * 5 + 3}[ycls]
     sse, sst = O.rsq(Y, exp["predict"])
     score_ok = n >= 2 and bool(numpy.all(sst > 1e-6 * (numpy.abs(Y).max() + 1.0) ** 2))
+    # the response reaches score() as a plain array or as a breeding-value matrix object; an object need not be centred on
+    # its own taxa (constructor-built: raw values with location 0 / scale 1, or location/scale of some base population)
+    ptform = str(g.choice(PTFORMS)) if score_ok else "array"
+    ploc = g.normal(size=t) * 3 + 1.0
+    psc = g.uniform(0.5, 3.0, t)
+    if ptform == "object/arbitrary location+scale":
+        Y = psc[None, :] * ((Y - ploc[None, :]) / psc[None, :]) + ploc[None, :]   # the values the object stands for
+        sse, sst = O.rsq(Y, exp["predict"])
     Yobj = Y
-    if score_ok and g.random() < 0.4:
+    if ptform != "array":
         try:
-            from pybrops.popgen.bvmat.DenseBreedingValueMatrix import DenseBreedingValueMatrix
-            Yobj = DenseBreedingValueMatrix.from_numpy(Y.copy(), taxa=taxa, taxa_grp=taxa_grp, trait=trait)
+            Yobj = mk_pheno(ptform, Y, taxa, taxa_grp, trait, ploc, psc)
         except Exception as e:
-            ctx.raised("DenseBreedingValueMatrix.from_numpy", e); Yobj = Y
+            ctx.raised("construct DenseBreedingValueMatrix", e); Yobj = Y; ptform = "array"
     S2 = S * S
     vA, vG = O.popvar(bvpart), O.popvar(gvpart)
     va, vazero = O.genic_var(u_a, count, n, ploidy)
@@ -347,7 +378,7 @@ def case_model(ctx, c):
                 ctx.maxnote("bulmer slack (|diff|/tol)", w if ok else 0.0)
         elif name == "score":
             ok, w = fclose(got, r2, r2tol)
-            ctx.check("C04.stats.score", ok, site, "== 1 - SSE/SST", icls + "/response " + ("matrix object" if Yobj is not Y else "array"),
+            ctx.check("C04.stats.score", ok, site, "== 1 - SSE/SST", icls + "/response " + ptform,
                       witness=dict(wit0, form=fname, got=brief(got), expected=brief(r2), response_class=ycls), coords=coords)
             ctx.maxnote("score slack (|diff|/tol)", w if ok else 0.0)
         elif name in TABLES:
@@ -429,9 +460,8 @@ def case_model(ctx, c):
         Yp = None
         if score_ok:
             Yp = Y[perm]
-            if Yobj is not Y:
-                from pybrops.popgen.bvmat.DenseBreedingValueMatrix import DenseBreedingValueMatrix
-                Yp = DenseBreedingValueMatrix.from_numpy(Y[perm].copy(), taxa=ptaxa, taxa_grp=pgrp, trait=trait)
+            if ptform != "array":
+                Yp = mk_pheno(ptform, Y[perm], ptaxa, pgrp, trait, ploc, psc)
         rp = collect(model, Fp, pform, ploidy, True, X[perm], Yp, has_misc)
     except Exception as e:
         ctx.raised("construct permuted genotype matrix", e); rp = {}
@@ -689,9 +719,28 @@ def case_fit(ctx, c):
                   witness=dict(wit0, got=brief(got), expected=brief(e)), coords=coords)
     except Exception as ex:
         ctx.raised("rrBLUPModel0.gebv", ex)
+    # ... and scores like one, whatever the container of the response
+    try:
+        pf = str(g.choice(PTFORMS[2:]))
+        Ys = Ytrain + g.normal(size=Ytrain.shape) * (float(numpy.abs(Ytrain).std()) + 1e-6)
+        loc = g.normal(size=t) + float(Ys.mean()); sc = g.uniform(0.5, 3.0, t) * (float(Ys.std()) + 1e-6)
+        if pf == "object/arbitrary location+scale":
+            Ys = sc[None, :] * ((Ys - loc[None, :]) / sc[None, :]) + loc[None, :]
+        pred = O.marker_part(Z, ua) + beta[0][None, :]
+        sse, sst = O.rsq(Ys, pred)
+        if numpy.all(sst > 1e-6 * (numpy.abs(Ys).max() + 1.0) ** 2):
+            got = m.score(mk_pheno(pf, Ys, None, None, trait, loc, sc), numpy.ones((n, 1)), Z.astype("int8"))
+            r2 = 1.0 - sse / sst
+            tl = O.tol((float(numpy.abs(Ys).max()) + Sf) ** 2 * n) * (1.0 + numpy.abs(r2)) / sst
+            ok, _ = fclose(got, r2, tl)
+            ctx.check("C04.stats.score", ok, defsite(m, "score"), "== 1 - SSE/SST", "fitted rrBLUP/array/response " + pf,
+                      witness=dict(wit0, got=brief(got), expected=brief(r2)), coords=coords)
+    except Exception as ex:
+        ctx.raised("rrBLUPModel0.score", ex)
 
 
-FAMILIES = {"model": (case_model, 2400, 120000), "fit": (case_fit, 280, 8000)}
+BIG_EVERY = 160   # every 160th model case is a large-population case (25 per quick run, each size >= 6 times)
+FAMILIES = {"model": (case_model, 4000, 120000), "fit": (case_fit, 400, 8000)}
 
 
 def run_shard(ctx):
